@@ -3,6 +3,7 @@ package connrig
 import (
 	"bytes"
 	"fmt"
+	"strings"
 	"sync"
 	"testing/synctest"
 	"time"
@@ -223,8 +224,13 @@ func (s *session) succeeded(i int) (*conn.SecretConnection, bool) {
 // judge applies the authentication oracle to every real end that succeeded.
 // honest maps public key bytes -> index of the end that holds that key in this
 // session (only real ends with real keys).
-func (s *session) judge(tag string) {
+func (s *session) judge(fullTag string) {
 	r := s.r
+	// violation keys carry the scenario kind only; the variant is in the message
+	tag := fullTag
+	if i := strings.Index(tag, "/"); i >= 0 {
+		tag = tag[:i]
+	}
 	r.c.Evals(1)
 	for i := 0; i < 2; i++ {
 		sc, ok := s.succeeded(i)
@@ -249,7 +255,7 @@ func (s *session) judge(tag string) {
 		if f := s.forgedFor[i]; f != nil {
 			if ed, is := p.(crypto.PubKeyEd25519); is && bytes.Equal(ed[:], f) {
 				r.violate("auth", "auth/accepted-forged-proof/"+tag,
-					"end %d accepted remote key %X although the signature it was shown is not that key's signature over this session's challenge (scenario %s)", i, f[:8], tag)
+					"end %d accepted remote key %X although the signature it was shown is not that key's signature over this session's challenge (scenario %s)", i, f[:8], fullTag)
 				continue
 			}
 		}
@@ -257,7 +263,7 @@ func (s *session) judge(tag string) {
 		// signed as this session's challenge
 		if !r.led.has(p, ch) {
 			r.violate("auth", "auth/accepted-key-that-did-not-sign-this-challenge/"+tag,
-				"end %d accepted remote key %X, but no holder of its private key signed this session's challenge %X (scenario %s)", i, p.Bytes()[:8], ch[:min(8, len(ch))], tag)
+				"end %d accepted remote key %X, but no holder of its private key signed this session's challenge %X (scenario %s)", i, p.Bytes()[:8], ch[:min(8, len(ch))], fullTag)
 			continue
 		}
 		// (2) if that key belongs to the other real end, both must have been
@@ -268,7 +274,7 @@ func (s *session) judge(tag string) {
 				din, dout := 1-i, i // direction into end i, out of end i
 				if !bytes.Equal(s.ephShown[din], s.ephWrote[din]) || !bytes.Equal(s.ephShown[dout], s.ephWrote[dout]) {
 					r.violate("auth", "auth/accepted-although-ephemeral-keys-differ/"+tag,
-						"end %d accepted the other end's key although the two ends did not see the same ephemeral keys (the signed challenge does not bind both ephemeral keys)", i)
+						"end %d accepted the other end's key although the two ends did not see the same ephemeral keys: the signed challenge does not bind both ephemeral keys (scenario %s)", i, fullTag)
 				}
 			}
 		}
